@@ -85,6 +85,9 @@ def handle (ts : Toks) : String :=
             (r.1, acc.2 ++ [match r.2 with | .stream l => "s:" ++ toString l | .noStream => "none" | .error e => "err:" ++ showErr e])
           else match o.splitOn ":" with
             | ["X", l] => if have_ acc.2 l then (closeStream c (l.toNat?.getD 0), acc.2 ++ ["ok"]) else (c, acc.2 ++ ["ok"])
+            -- close() through the handle of an EARLIER stream whose id was released (closed by the device) and has since
+            -- been given to another stream: that stream is closed already, nothing happens
+            | ["XS", _] => (c, acc.2 ++ ["ok"])
             | ["R", l, n] =>
               if have_ acc.2 l then
                 let r := readStream (l.toNat?.getD 0) (n.toNat?.getD 0) (c.dev.length + 24) c
